@@ -218,9 +218,12 @@ def h_hessian(ctx, d, N, types, model, shift, cell, ppp, n=None, alpha=None, mas
     else:
         lam = np.linalg.eigvalsh(Hm)
         om = np.asarray(csv["omega"].values, dtype=float)
+        scale = max(1.0, float(np.abs(Hm).max()))
         for k in range(nd):
-            want = np.sqrt(lam[k]) if lam[k] > 0 else lam[k]
-            ctx.oblige(f"omega[{k}]", O.eq(om[k], want, rtol=1e-5, atol=1e-6))
+            # compared in eigenvalue space: an eigenvalue that is zero up to rounding (1e-11) has a square root of 1e-5.5 with
+            # either sign convention, which says nothing about the code (false alarm of the first thorough run)
+            lam_code = om[k] * om[k] if om[k] > 0 else om[k]
+            ctx.oblige(f"omega[{k}]", O.eq(lam_code, lam[k], rtol=1e-6, atol=1e-8 * scale))
             pr = float(csv["PR"].values[k])
             ctx.oblige(f"0 < PR[{k}] <= 1", 0 < pr <= 1 + 1e-9)
 
